@@ -16,13 +16,28 @@ META = {
         'renumbered in an ascending scan labelling a whole chain on first encounter; C05.ROOT - in the cross-chunk merge an earlier '
         'label is followed to its root before the minimum is taken, the second pass compresses paths to the minimum, the final pass '
         'maps labels to root numbers; C05.FULL-SCAN - the per-chunk grouping compares every target with all targets and links when '
-        'sep <= distance; C05.CELLS - cell formulas / RA rotation / wrap handling shared with C04. C05.CELLS also carries the chunk-grid rules shared with C04 (exact end points of decBounds, nRa final before layout, two-sided cosDecMin, every non-empty chunk grouped). NOT decided: that the per-chunk '
+        'sep <= distance; C05.CELLS - cell formulas / RA rotation / wrap handling shared with C04. C05.CELLS also carries the chunk-grid rules shared with C04 (exact end points of decBounds, nRa final before layout, two-sided cosDecMin, every non-empty chunk grouped). C05.GCIRC - the linking distance is the haversine great-circle formula sin^2(d/2) = sin^2(ddec/2) + cos(dec1) cos(dec2) sin^2(dra/2) (polynomial normal form, shared with C04 / C18); NOT decided: that the per-chunk '
         'grouping plus the union-find produce exactly the connected components for all geometries.'),
-    'floors': {'C05.MARGIN': 2, 'C05.LIST-DESC': 4, 'C05.RESET': 2, 'C05.RENUMBER': 1, 'C05.ROOT': 3, 'C05.FULL-SCAN': 3, 'C05.CELLS': 9},
+    'floors': {'C05.GCIRC': 2, 'C05.MARGIN': 2, 'C05.LIST-DESC': 4, 'C05.RESET': 2, 'C05.RENUMBER': 1, 'C05.ROOT': 3, 'C05.FULL-SCAN': 3, 'C05.CELLS': 9},
 }
 
 
 def run(ctx):
+    # the linking distance is gcirc's: the great-circle formula is shared with C04 / C18 and reported here under C05.GCIRC
+    from .c18 import check_gcirc
+    sub = type(ctx)(ctx.prop, ctx.repo, ctx.tier)
+    check_gcirc(sub, ctx.repo)
+    for o in sub.obligations:
+        if o['rule'] == 'C18.HAVERSINE':
+            o['rule'] = 'C05.GCIRC'
+            ctx.obligations.append(o)
+            ctx.rule_counts['C05.GCIRC'] = ctx.rule_counts.get('C05.GCIRC', 0) + 1
+    for v in sub.violations:
+        if v.rule == 'C18.HAVERSINE':
+            v.rule = 'C05.GCIRC'
+            v.prop = 'C05'
+            ctx.violations.append(v)
+    ctx.functions.update(sub.functions)
     check_spheregroup(ctx, ctx.repo)
     n = check_list_desc(ctx, ctx.repo, 'C05.LIST-DESC')
     ctx.need(n >= 4, 'fewer intrusive-list rebuild sites than confirmed by hand (%d)' % n)
